@@ -212,7 +212,12 @@ def one(ctx, dn):
     # sliding window == pointwise calls
     if rng.random() < 0.35:
         try:
-            sres = al.sliding_delta_conformity(G, delta, alphas, attrs, profile_size=psize, path_type=ptype)
+            skw = dict(profile_size=psize, path_type=ptype)
+            if psize == 1 and rng.random() < 0.5:
+                del skw["profile_size"]
+            if ptype == "shortest" and rng.random() < 0.5:
+                del skw["path_type"]
+            sres = al.sliding_delta_conformity(G, delta, alphas, attrs, **skw)
             exp = {}
             for t in ids:
                 if t + delta < ids[-1]:
